@@ -775,7 +775,7 @@ func runC05(ctx *Ctx) *Result {
 		}
 		if d := agree(impl, ans, len(c.TgtRoutes) > 12); d != "" {
 			res.Disagree("c05 drc vs model: "+d, c, fmt.Sprintf("status=%d stdout=%q stderr=%q panic=%q", impl.Status, impl.Stdout, impl.Stderr, impl.Panic), ans)
-			return
+			// no return: the oracle below judges the real output on its own
 		}
 		if len(res.Samples) < 4 && nontrivial && c.Abstract && impl.Stdout != "" {
 			res.Sample(map[string]any{"device": c.Dev, "target": c.Spoc, "script": impl.Stdout})
@@ -1029,6 +1029,9 @@ func witnesses() []*c05Case {
 		return []aTable{{Name: "filter", Chains: []aChain{{Name: "INPUT", Policy: "DROP", Rules: rules}}}}
 	}
 	return []*c05Case{
+		// a table with the empty name that only the device has goes unnoticed (iptables_diff_iff_counterexample)
+		{Stream: "witness", Dev: "*\n:INPUT DROP\nCOMMIT\n*filter\n:INPUT DROP\n", Spoc: "*filter\n:INPUT DROP\n*\n"},
+		{Stream: "witness", Dev: "*\n", Spoc: ""},
 		// duplicate target route: `ip route add` for an existing route
 		{Stream: "witness", Abstract: true, DevRoutes: []devRoute{{IP: "10.1.1.0", Plen: 24, Hop: "10.10.1.1"}},
 			TgtRoutes: []string{"ip route add 10.1.1.0/24 via 10.10.1.1", "ip route add 10.1.1.0/24 via 10.10.1.1"}},
